@@ -238,40 +238,42 @@ theorem Agree.rd {rk : Array UInt32} {n : Nat} {V : Nat → UInt32} (h : Agree r
 theorem Agree.cast {rk : Array UInt32} {n n' : Nat} {V : Nat → UInt32} (h : Agree rk n V) (e : n = n') :
     Agree rk n' V := e ▸ h
 
-theorem rcon_eq (i : Nat) (hi : i < 10) : Gen.AesTables.rcon.getD i 0 = rconW (i + 1) := by
-  have h := @Relic.Lemmas.AesTables.rcon_spec
-  have h2 := h i
-  have h3 := h2 hi
-  rw [rconW]
-  exact h3
+theorem rcon_eq (i : Nat) (hi : i < 10) : Gen.AesTables.rcon.getD i 0 = rconW (i + 1) :=
+  Relic.Lemmas.AesTables.rcon_spec i hi
 
 theorem W_rot (nk : Nat) (w0 : Nat → UInt32) (m p q r : Nat) (hp : p + nk = m) (hq : q + 1 = m) (hr : r * nk = m)
-    (hnk : 0 < nk) (hr1 : 1 ≤ r) :
+    (hnk : 0 < nk) :
     W nk w0 m = W nk w0 p ^^^ (Rijndael.subRot (W nk w0 q) ^^^ rconW r) := by
   have hge : nk ≤ m := by omega
   have hmod : m % nk = 0 := by rw [← hr]; exact Nat.mul_mod_left r nk
   have hdiv : m / nk = r := by rw [← hr]; exact Nat.mul_div_cancel r hnk
-  rw [W_ge nk w0 m hnk hge, gW, if_pos hmod, hdiv]
-  congr 2 <;> congr 1 <;> omega
+  have e1 : m - nk = p := by omega
+  have e2 : m - 1 = q := by omega
+  rw [W_ge nk w0 m hnk hge, gW, if_pos hmod, hdiv, e1, e2]
 
 theorem W_plain (nk : Nat) (w0 : Nat → UInt32) (m p q : Nat) (hp : p + nk = m) (hq : q + 1 = m)
     (hnk : 0 < nk) (hmod : m % nk ≠ 0) (h4 : ¬ (nk > 6 ∧ m % nk = 4)) :
     W nk w0 m = W nk w0 p ^^^ W nk w0 q := by
-  rw [W_ge nk w0 m hnk (by omega), gW, if_neg hmod, if_neg h4]
-  congr 1 <;> congr 1 <;> omega
+  have e1 : m - nk = p := by omega
+  have e2 : m - 1 = q := by omega
+  rw [W_ge nk w0 m hnk (by omega), gW, if_neg hmod, if_neg h4, e1, e2]
 
 theorem W_sub (nk : Nat) (w0 : Nat → UInt32) (m p q : Nat) (hp : p + nk = m) (hq : q + 1 = m)
     (hnk : 6 < nk) (hmod : m % nk = 4) :
     W nk w0 m = W nk w0 p ^^^ Rijndael.subWord (W nk w0 q) := by
-  rw [W_ge nk w0 m (by omega) (by omega), gW, if_neg (by omega), if_pos ⟨hnk, hmod⟩]
-  congr 2 <;> congr 1 <;> omega
+  have e1 : m - nk = p := by omega
+  have e2 : m - 1 = q := by omega
+  rw [W_ge nk w0 m (by omega) (by omega), gW, if_neg (by omega), if_pos ⟨hnk, hmod⟩, e1, e2]
+
+theorem Agree.mono {rk : Array UInt32} {n n' : Nat} {V : Nat → UInt32} (h : Agree rk n V) (e : n' ≤ n) :
+    Agree rk n' V := ⟨h.1, fun m hm => h.2 m (by omega)⟩
 
 theorem loop128_step (fuel : Nat) (rk : Array UInt32) (off i : Nat) (rk1 rk2 rk3 rk4 : Array UInt32)
-    (h1 : rk1 = Rijndael.wr rk off 4 (Rijndael.rd rk off 0 ^^^ Rijndael.subRot (Rijndael.rd rk off 3) ^^^
-      Gen.AesTables.rcon.getD i 0))
+    (h1 : rk1 = Rijndael.wr rk off 4 (Rijndael.rd rk off 0 ^^^ Rijndael.subRot (Rijndael.rd rk off 3) ^^^ Gen.AesTables.rcon.getD i 0))
     (h2 : rk2 = Rijndael.wr rk1 off 5 (Rijndael.rd rk1 off 1 ^^^ Rijndael.rd rk1 off 4))
     (h3 : rk3 = Rijndael.wr rk2 off 6 (Rijndael.rd rk2 off 2 ^^^ Rijndael.rd rk2 off 5))
-    (h4 : rk4 = Rijndael.wr rk3 off 7 (Rijndael.rd rk3 off 3 ^^^ Rijndael.rd rk3 off 6)) :
+    (h4 : rk4 = Rijndael.wr rk3 off 7 (Rijndael.rd rk3 off 3 ^^^ Rijndael.rd rk3 off 6))
+    :
     Rijndael.loop128 (fuel + 1) rk off i =
       if (i + 1 == 10) = true then rk4 else Rijndael.loop128 fuel rk4 (off + 4) (i + 1) := by
   subst h1 h2 h3 h4
@@ -285,23 +287,18 @@ theorem loop128_ok (w0 : Nat → UInt32) : ∀ fuel rk i, i + fuel = 10 → Agre
     intro rk i hi h
     have : i = 10 := by omega
     subst this
-    exact h
+    exact h.mono (by omega)
   | succ fuel ih =>
     intro rk i hi h
-    have hi10 : i < 10 := by omega
-    obtain ⟨rk1, h1⟩ : ∃ rk1, rk1 = Rijndael.wr rk (4 * i) 4 (Rijndael.rd rk (4 * i) 0 ^^^
-      Rijndael.subRot (Rijndael.rd rk (4 * i) 3) ^^^ Gen.AesTables.rcon.getD i 0) := ⟨_, rfl⟩
-    obtain ⟨rk2, h2⟩ : ∃ rk2, rk2 = Rijndael.wr rk1 (4 * i) 5 (Rijndael.rd rk1 (4 * i) 1 ^^^
-      Rijndael.rd rk1 (4 * i) 4) := ⟨_, rfl⟩
-    obtain ⟨rk3, h3⟩ : ∃ rk3, rk3 = Rijndael.wr rk2 (4 * i) 6 (Rijndael.rd rk2 (4 * i) 2 ^^^
-      Rijndael.rd rk2 (4 * i) 5) := ⟨_, rfl⟩
-    obtain ⟨rk4, h4⟩ : ∃ rk4, rk4 = Rijndael.wr rk3 (4 * i) 7 (Rijndael.rd rk3 (4 * i) 3 ^^^
-      Rijndael.rd rk3 (4 * i) 6) := ⟨_, rfl⟩
+    obtain ⟨rk1, h1⟩ : ∃ x, x = Rijndael.wr rk (4 * i) 4 (Rijndael.rd rk (4 * i) 0 ^^^ Rijndael.subRot (Rijndael.rd rk (4 * i) 3) ^^^ Gen.AesTables.rcon.getD i 0) := ⟨_, rfl⟩
+    obtain ⟨rk2, h2⟩ : ∃ x, x = Rijndael.wr rk1 (4 * i) 5 (Rijndael.rd rk1 (4 * i) 1 ^^^ Rijndael.rd rk1 (4 * i) 4) := ⟨_, rfl⟩
+    obtain ⟨rk3, h3⟩ : ∃ x, x = Rijndael.wr rk2 (4 * i) 6 (Rijndael.rd rk2 (4 * i) 2 ^^^ Rijndael.rd rk2 (4 * i) 5) := ⟨_, rfl⟩
+    obtain ⟨rk4, h4⟩ : ∃ x, x = Rijndael.wr rk3 (4 * i) 7 (Rijndael.rd rk3 (4 * i) 3 ^^^ Rijndael.rd rk3 (4 * i) 6) := ⟨_, rfl⟩
     rw [loop128_step fuel rk (4 * i) i rk1 rk2 rk3 rk4 h1 h2 h3 h4]
     have a1 : Agree rk1 (4 + 4 * i + 1) (W 4 w0) := by
       refine h.wr _ _ _ _ h1 (by omega) (by omega) ?_
-      rw [h.rd _ _ (by omega), h.rd _ _ (by omega), rcon_eq i hi10, UInt32.xor_assoc]
-      exact (W_rot 4 w0 _ _ _ _ (by omega) (by omega) (by omega) (by omega) (by omega)).symm
+      rw [h.rd _ _ (by omega), h.rd _ _ (by omega), rcon_eq i (by omega), UInt32.xor_assoc]
+      exact (W_rot 4 w0 _ _ _ _ (by omega) (by omega) (by omega) (by omega)).symm
     have a2 : Agree rk2 (4 + 4 * i + 1 + 1) (W 4 w0) := by
       refine a1.wr _ _ _ _ h2 (by omega) (by omega) ?_
       rw [a1.rd _ _ (by omega), a1.rd _ _ (by omega)]
@@ -316,10 +313,244 @@ theorem loop128_ok (w0 : Nat → UInt32) : ∀ fuel rk i, i + fuel = 10 → Agre
       exact (W_plain 4 w0 _ _ _ (by omega) (by omega) (by omega) (by omega) (by omega)).symm
     by_cases hlast : i + 1 = 10
     · rw [if_pos (by simp; omega)]
-      exact a4.cast (by omega)
+      exact a4.mono (by omega)
     · rw [if_neg (by simp; omega)]
       have e : 4 * i + 4 = 4 * (i + 1) := by omega
       rw [e]
       exact ih rk4 (i + 1) (by omega) (a4.cast (by omega))
 
+theorem loop192_step (fuel : Nat) (rk : Array UInt32) (off i : Nat) (rk1 rk2 rk3 rk4 rk5 rk6 : Array UInt32)
+    (h1 : rk1 = Rijndael.wr rk off 6 (Rijndael.rd rk off 0 ^^^ Rijndael.subRot (Rijndael.rd rk off 5) ^^^ Gen.AesTables.rcon.getD i 0))
+    (h2 : rk2 = Rijndael.wr rk1 off 7 (Rijndael.rd rk1 off 1 ^^^ Rijndael.rd rk1 off 6))
+    (h3 : rk3 = Rijndael.wr rk2 off 8 (Rijndael.rd rk2 off 2 ^^^ Rijndael.rd rk2 off 7))
+    (h4 : rk4 = Rijndael.wr rk3 off 9 (Rijndael.rd rk3 off 3 ^^^ Rijndael.rd rk3 off 8))
+    (h5 : rk5 = Rijndael.wr rk4 off 10 (Rijndael.rd rk4 off 4 ^^^ Rijndael.rd rk4 off 9))
+    (h6 : rk6 = Rijndael.wr rk5 off 11 (Rijndael.rd rk5 off 5 ^^^ Rijndael.rd rk5 off 10))
+    :
+    Rijndael.loop192 (fuel + 1) rk off i =
+      if (i + 1 == 8) = true then rk4 else Rijndael.loop192 fuel rk6 (off + 6) (i + 1) := by
+  subst h1 h2 h3 h4 h5 h6
+  rfl
+
+theorem loop192_ok (w0 : Nat → UInt32) : ∀ fuel rk i, i + fuel = 8 → Agree rk (6 + 6 * i) (W 6 w0) →
+    Agree (Rijndael.loop192 fuel rk (6 * i) i) 52 (W 6 w0) := by
+  intro fuel
+  induction fuel with
+  | zero =>
+    intro rk i hi h
+    have : i = 8 := by omega
+    subst this
+    exact h.mono (by omega)
+  | succ fuel ih =>
+    intro rk i hi h
+    obtain ⟨rk1, h1⟩ : ∃ x, x = Rijndael.wr rk (6 * i) 6 (Rijndael.rd rk (6 * i) 0 ^^^ Rijndael.subRot (Rijndael.rd rk (6 * i) 5) ^^^ Gen.AesTables.rcon.getD i 0) := ⟨_, rfl⟩
+    obtain ⟨rk2, h2⟩ : ∃ x, x = Rijndael.wr rk1 (6 * i) 7 (Rijndael.rd rk1 (6 * i) 1 ^^^ Rijndael.rd rk1 (6 * i) 6) := ⟨_, rfl⟩
+    obtain ⟨rk3, h3⟩ : ∃ x, x = Rijndael.wr rk2 (6 * i) 8 (Rijndael.rd rk2 (6 * i) 2 ^^^ Rijndael.rd rk2 (6 * i) 7) := ⟨_, rfl⟩
+    obtain ⟨rk4, h4⟩ : ∃ x, x = Rijndael.wr rk3 (6 * i) 9 (Rijndael.rd rk3 (6 * i) 3 ^^^ Rijndael.rd rk3 (6 * i) 8) := ⟨_, rfl⟩
+    obtain ⟨rk5, h5⟩ : ∃ x, x = Rijndael.wr rk4 (6 * i) 10 (Rijndael.rd rk4 (6 * i) 4 ^^^ Rijndael.rd rk4 (6 * i) 9) := ⟨_, rfl⟩
+    obtain ⟨rk6, h6⟩ : ∃ x, x = Rijndael.wr rk5 (6 * i) 11 (Rijndael.rd rk5 (6 * i) 5 ^^^ Rijndael.rd rk5 (6 * i) 10) := ⟨_, rfl⟩
+    rw [loop192_step fuel rk (6 * i) i rk1 rk2 rk3 rk4 rk5 rk6 h1 h2 h3 h4 h5 h6]
+    have a1 : Agree rk1 (6 + 6 * i + 1) (W 6 w0) := by
+      refine h.wr _ _ _ _ h1 (by omega) (by omega) ?_
+      rw [h.rd _ _ (by omega), h.rd _ _ (by omega), rcon_eq i (by omega), UInt32.xor_assoc]
+      exact (W_rot 6 w0 _ _ _ _ (by omega) (by omega) (by omega) (by omega)).symm
+    have a2 : Agree rk2 (6 + 6 * i + 1 + 1) (W 6 w0) := by
+      refine a1.wr _ _ _ _ h2 (by omega) (by omega) ?_
+      rw [a1.rd _ _ (by omega), a1.rd _ _ (by omega)]
+      exact (W_plain 6 w0 _ _ _ (by omega) (by omega) (by omega) (by omega) (by omega)).symm
+    have a3 : Agree rk3 (6 + 6 * i + 1 + 1 + 1) (W 6 w0) := by
+      refine a2.wr _ _ _ _ h3 (by omega) (by omega) ?_
+      rw [a2.rd _ _ (by omega), a2.rd _ _ (by omega)]
+      exact (W_plain 6 w0 _ _ _ (by omega) (by omega) (by omega) (by omega) (by omega)).symm
+    have a4 : Agree rk4 (6 + 6 * i + 1 + 1 + 1 + 1) (W 6 w0) := by
+      refine a3.wr _ _ _ _ h4 (by omega) (by omega) ?_
+      rw [a3.rd _ _ (by omega), a3.rd _ _ (by omega)]
+      exact (W_plain 6 w0 _ _ _ (by omega) (by omega) (by omega) (by omega) (by omega)).symm
+    by_cases hlast : i + 1 = 8
+    · rw [if_pos (by simp; omega)]
+      exact a4.mono (by omega)
+    · rw [if_neg (by simp; omega)]
+      have a5 : Agree rk5 (6 + 6 * i + 1 + 1 + 1 + 1 + 1) (W 6 w0) := by
+        refine a4.wr _ _ _ _ h5 (by omega) (by omega) ?_
+        rw [a4.rd _ _ (by omega), a4.rd _ _ (by omega)]
+        exact (W_plain 6 w0 _ _ _ (by omega) (by omega) (by omega) (by omega) (by omega)).symm
+      have a6 : Agree rk6 (6 + 6 * i + 1 + 1 + 1 + 1 + 1 + 1) (W 6 w0) := by
+        refine a5.wr _ _ _ _ h6 (by omega) (by omega) ?_
+        rw [a5.rd _ _ (by omega), a5.rd _ _ (by omega)]
+        exact (W_plain 6 w0 _ _ _ (by omega) (by omega) (by omega) (by omega) (by omega)).symm
+      have e : 6 * i + 6 = 6 * (i + 1) := by omega
+      rw [e]
+      exact ih rk6 (i + 1) (by omega) (a6.cast (by omega))
+
+theorem loop256_step (fuel : Nat) (rk : Array UInt32) (off i : Nat) (rk1 rk2 rk3 rk4 rk5 rk6 rk7 rk8 : Array UInt32)
+    (h1 : rk1 = Rijndael.wr rk off 8 (Rijndael.rd rk off 0 ^^^ Rijndael.subRot (Rijndael.rd rk off 7) ^^^ Gen.AesTables.rcon.getD i 0))
+    (h2 : rk2 = Rijndael.wr rk1 off 9 (Rijndael.rd rk1 off 1 ^^^ Rijndael.rd rk1 off 8))
+    (h3 : rk3 = Rijndael.wr rk2 off 10 (Rijndael.rd rk2 off 2 ^^^ Rijndael.rd rk2 off 9))
+    (h4 : rk4 = Rijndael.wr rk3 off 11 (Rijndael.rd rk3 off 3 ^^^ Rijndael.rd rk3 off 10))
+    (h5 : rk5 = Rijndael.wr rk4 off 12 (Rijndael.rd rk4 off 4 ^^^ Rijndael.subWord (Rijndael.rd rk4 off 11)))
+    (h6 : rk6 = Rijndael.wr rk5 off 13 (Rijndael.rd rk5 off 5 ^^^ Rijndael.rd rk5 off 12))
+    (h7 : rk7 = Rijndael.wr rk6 off 14 (Rijndael.rd rk6 off 6 ^^^ Rijndael.rd rk6 off 13))
+    (h8 : rk8 = Rijndael.wr rk7 off 15 (Rijndael.rd rk7 off 7 ^^^ Rijndael.rd rk7 off 14))
+    :
+    Rijndael.loop256 (fuel + 1) rk off i =
+      if (i + 1 == 7) = true then rk4 else Rijndael.loop256 fuel rk8 (off + 8) (i + 1) := by
+  subst h8 h7 h6 h5 h4 h3 h2 h1
+  rfl
+
+theorem loop256_ok (w0 : Nat → UInt32) : ∀ fuel rk i, i + fuel = 7 → Agree rk (8 + 8 * i) (W 8 w0) →
+    Agree (Rijndael.loop256 fuel rk (8 * i) i) 60 (W 8 w0) := by
+  intro fuel
+  induction fuel with
+  | zero =>
+    intro rk i hi h
+    have : i = 7 := by omega
+    subst this
+    exact h.mono (by omega)
+  | succ fuel ih =>
+    intro rk i hi h
+    obtain ⟨rk1, h1⟩ : ∃ x, x = Rijndael.wr rk (8 * i) 8 (Rijndael.rd rk (8 * i) 0 ^^^ Rijndael.subRot (Rijndael.rd rk (8 * i) 7) ^^^ Gen.AesTables.rcon.getD i 0) := ⟨_, rfl⟩
+    obtain ⟨rk2, h2⟩ : ∃ x, x = Rijndael.wr rk1 (8 * i) 9 (Rijndael.rd rk1 (8 * i) 1 ^^^ Rijndael.rd rk1 (8 * i) 8) := ⟨_, rfl⟩
+    obtain ⟨rk3, h3⟩ : ∃ x, x = Rijndael.wr rk2 (8 * i) 10 (Rijndael.rd rk2 (8 * i) 2 ^^^ Rijndael.rd rk2 (8 * i) 9) := ⟨_, rfl⟩
+    obtain ⟨rk4, h4⟩ : ∃ x, x = Rijndael.wr rk3 (8 * i) 11 (Rijndael.rd rk3 (8 * i) 3 ^^^ Rijndael.rd rk3 (8 * i) 10) := ⟨_, rfl⟩
+    obtain ⟨rk5, h5⟩ : ∃ x, x = Rijndael.wr rk4 (8 * i) 12 (Rijndael.rd rk4 (8 * i) 4 ^^^ Rijndael.subWord (Rijndael.rd rk4 (8 * i) 11)) := ⟨_, rfl⟩
+    obtain ⟨rk6, h6⟩ : ∃ x, x = Rijndael.wr rk5 (8 * i) 13 (Rijndael.rd rk5 (8 * i) 5 ^^^ Rijndael.rd rk5 (8 * i) 12) := ⟨_, rfl⟩
+    obtain ⟨rk7, h7⟩ : ∃ x, x = Rijndael.wr rk6 (8 * i) 14 (Rijndael.rd rk6 (8 * i) 6 ^^^ Rijndael.rd rk6 (8 * i) 13) := ⟨_, rfl⟩
+    obtain ⟨rk8, h8⟩ : ∃ x, x = Rijndael.wr rk7 (8 * i) 15 (Rijndael.rd rk7 (8 * i) 7 ^^^ Rijndael.rd rk7 (8 * i) 14) := ⟨_, rfl⟩
+    rw [loop256_step fuel rk (8 * i) i rk1 rk2 rk3 rk4 rk5 rk6 rk7 rk8 h1 h2 h3 h4 h5 h6 h7 h8]
+    have a1 : Agree rk1 (8 + 8 * i + 1) (W 8 w0) := by
+      refine h.wr _ _ _ _ h1 (by omega) (by omega) ?_
+      rw [h.rd _ _ (by omega), h.rd _ _ (by omega), rcon_eq i (by omega), UInt32.xor_assoc]
+      exact (W_rot 8 w0 _ _ _ _ (by omega) (by omega) (by omega) (by omega)).symm
+    have a2 : Agree rk2 (8 + 8 * i + 1 + 1) (W 8 w0) := by
+      refine a1.wr _ _ _ _ h2 (by omega) (by omega) ?_
+      rw [a1.rd _ _ (by omega), a1.rd _ _ (by omega)]
+      exact (W_plain 8 w0 _ _ _ (by omega) (by omega) (by omega) (by omega) (by omega)).symm
+    have a3 : Agree rk3 (8 + 8 * i + 1 + 1 + 1) (W 8 w0) := by
+      refine a2.wr _ _ _ _ h3 (by omega) (by omega) ?_
+      rw [a2.rd _ _ (by omega), a2.rd _ _ (by omega)]
+      exact (W_plain 8 w0 _ _ _ (by omega) (by omega) (by omega) (by omega) (by omega)).symm
+    have a4 : Agree rk4 (8 + 8 * i + 1 + 1 + 1 + 1) (W 8 w0) := by
+      refine a3.wr _ _ _ _ h4 (by omega) (by omega) ?_
+      rw [a3.rd _ _ (by omega), a3.rd _ _ (by omega)]
+      exact (W_plain 8 w0 _ _ _ (by omega) (by omega) (by omega) (by omega) (by omega)).symm
+    by_cases hlast : i + 1 = 7
+    · rw [if_pos (by simp; omega)]
+      exact a4.mono (by omega)
+    · rw [if_neg (by simp; omega)]
+      have a5 : Agree rk5 (8 + 8 * i + 1 + 1 + 1 + 1 + 1) (W 8 w0) := by
+        refine a4.wr _ _ _ _ h5 (by omega) (by omega) ?_
+        rw [a4.rd _ _ (by omega), a4.rd _ _ (by omega)]
+        exact (W_sub 8 w0 _ _ _ (by omega) (by omega) (by omega) (by omega)).symm
+      have a6 : Agree rk6 (8 + 8 * i + 1 + 1 + 1 + 1 + 1 + 1) (W 8 w0) := by
+        refine a5.wr _ _ _ _ h6 (by omega) (by omega) ?_
+        rw [a5.rd _ _ (by omega), a5.rd _ _ (by omega)]
+        exact (W_plain 8 w0 _ _ _ (by omega) (by omega) (by omega) (by omega) (by omega)).symm
+      have a7 : Agree rk7 (8 + 8 * i + 1 + 1 + 1 + 1 + 1 + 1 + 1) (W 8 w0) := by
+        refine a6.wr _ _ _ _ h7 (by omega) (by omega) ?_
+        rw [a6.rd _ _ (by omega), a6.rd _ _ (by omega)]
+        exact (W_plain 8 w0 _ _ _ (by omega) (by omega) (by omega) (by omega) (by omega)).symm
+      have a8 : Agree rk8 (8 + 8 * i + 1 + 1 + 1 + 1 + 1 + 1 + 1 + 1) (W 8 w0) := by
+        refine a7.wr _ _ _ _ h8 (by omega) (by omega) ?_
+        rw [a7.rd _ _ (by omega), a7.rd _ _ (by omega)]
+        exact (W_plain 8 w0 _ _ _ (by omega) (by omega) (by omega) (by omega) (by omega)).symm
+      have e : 8 * i + 8 = 8 * (i + 1) := by omega
+      rw [e]
+      exact ih rk8 (i + 1) (by omega) (a8.cast (by omega))
+
+theorem Agree_init (V : Nat → UInt32) : Agree (Array.replicate Rijndael.rkWords 0) 0 V :=
+  ⟨by simp [Rijndael.rkWords], fun m hm => absurd hm (Nat.not_lt_zero _)⟩
+
+theorem keySetupEnc_128 (key : Bytes) (hlen : key.length = 16) :
+    ∃ rk, Rijndael.keySetupEnc key = some (rk, 10) ∧ Agree rk 44 (W 4 (keyW key)) := by
+  refine ⟨Rijndael.loop128 10 (Rijndael.wr (Rijndael.wr (Rijndael.wr (Rijndael.wr (Array.replicate Rijndael.rkWords 0) 0 0 (Rijndael.getu32 key 0)) 0 1 (Rijndael.getu32 key 4)) 0 2 (Rijndael.getu32 key 8)) 0 3 (Rijndael.getu32 key 12)) 0 0, ?_, ?_⟩
+  · unfold Rijndael.keySetupEnc
+    rw [hlen]
+    rfl
+  · have a0 : Agree (Array.replicate Rijndael.rkWords 0) 0 (W 4 (keyW key)) := Agree_init _
+    have a1 : Agree (Rijndael.wr (Array.replicate Rijndael.rkWords 0) 0 0 (Rijndael.getu32 key 0)) (0 + 1) (W 4 (keyW key)) :=
+      a0.wr 0 0 _ _ rfl (by omega) (by omega) (W_lt 4 (keyW key) 0 (by omega)).symm
+    have a2 : Agree (Rijndael.wr (Rijndael.wr (Array.replicate Rijndael.rkWords 0) 0 0 (Rijndael.getu32 key 0)) 0 1 (Rijndael.getu32 key 4)) (1 + 1) (W 4 (keyW key)) :=
+      a1.wr 0 1 _ _ rfl (by omega) (by omega) (W_lt 4 (keyW key) 1 (by omega)).symm
+    have a3 : Agree (Rijndael.wr (Rijndael.wr (Rijndael.wr (Array.replicate Rijndael.rkWords 0) 0 0 (Rijndael.getu32 key 0)) 0 1 (Rijndael.getu32 key 4)) 0 2 (Rijndael.getu32 key 8)) (2 + 1) (W 4 (keyW key)) :=
+      a2.wr 0 2 _ _ rfl (by omega) (by omega) (W_lt 4 (keyW key) 2 (by omega)).symm
+    have a4 : Agree (Rijndael.wr (Rijndael.wr (Rijndael.wr (Rijndael.wr (Array.replicate Rijndael.rkWords 0) 0 0 (Rijndael.getu32 key 0)) 0 1 (Rijndael.getu32 key 4)) 0 2 (Rijndael.getu32 key 8)) 0 3 (Rijndael.getu32 key 12)) (3 + 1) (W 4 (keyW key)) :=
+      a3.wr 0 3 _ _ rfl (by omega) (by omega) (W_lt 4 (keyW key) 3 (by omega)).symm
+    exact loop128_ok (keyW key) 10 _ 0 rfl a4
+
+set_option maxRecDepth 8192 in
+theorem keySetupEnc_192 (key : Bytes) (hlen : key.length = 24) :
+    ∃ rk, Rijndael.keySetupEnc key = some (rk, 12) ∧ Agree rk 52 (W 6 (keyW key)) := by
+  refine ⟨Rijndael.loop192 12 (Rijndael.wr (Rijndael.wr (Rijndael.wr (Rijndael.wr (Rijndael.wr (Rijndael.wr (Array.replicate Rijndael.rkWords 0) 0 0 (Rijndael.getu32 key 0)) 0 1 (Rijndael.getu32 key 4)) 0 2 (Rijndael.getu32 key 8)) 0 3 (Rijndael.getu32 key 12)) 0 4 (Rijndael.getu32 key 16)) 0 5 (Rijndael.getu32 key 20)) 0 0, ?_, ?_⟩
+  · unfold Rijndael.keySetupEnc
+    rw [hlen]
+    rfl
+  · have a0 : Agree (Array.replicate Rijndael.rkWords 0) 0 (W 6 (keyW key)) := Agree_init _
+    have a1 : Agree (Rijndael.wr (Array.replicate Rijndael.rkWords 0) 0 0 (Rijndael.getu32 key 0)) (0 + 1) (W 6 (keyW key)) :=
+      a0.wr 0 0 _ _ rfl (by omega) (by omega) (W_lt 6 (keyW key) 0 (by omega)).symm
+    have a2 : Agree (Rijndael.wr (Rijndael.wr (Array.replicate Rijndael.rkWords 0) 0 0 (Rijndael.getu32 key 0)) 0 1 (Rijndael.getu32 key 4)) (1 + 1) (W 6 (keyW key)) :=
+      a1.wr 0 1 _ _ rfl (by omega) (by omega) (W_lt 6 (keyW key) 1 (by omega)).symm
+    have a3 : Agree (Rijndael.wr (Rijndael.wr (Rijndael.wr (Array.replicate Rijndael.rkWords 0) 0 0 (Rijndael.getu32 key 0)) 0 1 (Rijndael.getu32 key 4)) 0 2 (Rijndael.getu32 key 8)) (2 + 1) (W 6 (keyW key)) :=
+      a2.wr 0 2 _ _ rfl (by omega) (by omega) (W_lt 6 (keyW key) 2 (by omega)).symm
+    have a4 : Agree (Rijndael.wr (Rijndael.wr (Rijndael.wr (Rijndael.wr (Array.replicate Rijndael.rkWords 0) 0 0 (Rijndael.getu32 key 0)) 0 1 (Rijndael.getu32 key 4)) 0 2 (Rijndael.getu32 key 8)) 0 3 (Rijndael.getu32 key 12)) (3 + 1) (W 6 (keyW key)) :=
+      a3.wr 0 3 _ _ rfl (by omega) (by omega) (W_lt 6 (keyW key) 3 (by omega)).symm
+    have a5 : Agree (Rijndael.wr (Rijndael.wr (Rijndael.wr (Rijndael.wr (Rijndael.wr (Array.replicate Rijndael.rkWords 0) 0 0 (Rijndael.getu32 key 0)) 0 1 (Rijndael.getu32 key 4)) 0 2 (Rijndael.getu32 key 8)) 0 3 (Rijndael.getu32 key 12)) 0 4 (Rijndael.getu32 key 16)) (4 + 1) (W 6 (keyW key)) :=
+      a4.wr 0 4 _ _ rfl (by omega) (by omega) (W_lt 6 (keyW key) 4 (by omega)).symm
+    have a6 : Agree (Rijndael.wr (Rijndael.wr (Rijndael.wr (Rijndael.wr (Rijndael.wr (Rijndael.wr (Array.replicate Rijndael.rkWords 0) 0 0 (Rijndael.getu32 key 0)) 0 1 (Rijndael.getu32 key 4)) 0 2 (Rijndael.getu32 key 8)) 0 3 (Rijndael.getu32 key 12)) 0 4 (Rijndael.getu32 key 16)) 0 5 (Rijndael.getu32 key 20)) (5 + 1) (W 6 (keyW key)) :=
+      a5.wr 0 5 _ _ rfl (by omega) (by omega) (W_lt 6 (keyW key) 5 (by omega)).symm
+    exact loop192_ok (keyW key) 8 _ 0 rfl a6
+
+set_option maxRecDepth 8192 in
+theorem keySetupEnc_256 (key : Bytes) (hlen : key.length = 32) :
+    ∃ rk, Rijndael.keySetupEnc key = some (rk, 14) ∧ Agree rk 60 (W 8 (keyW key)) := by
+  refine ⟨Rijndael.loop256 14 (Rijndael.wr (Rijndael.wr (Rijndael.wr (Rijndael.wr (Rijndael.wr (Rijndael.wr (Rijndael.wr (Rijndael.wr (Array.replicate Rijndael.rkWords 0) 0 0 (Rijndael.getu32 key 0)) 0 1 (Rijndael.getu32 key 4)) 0 2 (Rijndael.getu32 key 8)) 0 3 (Rijndael.getu32 key 12)) 0 4 (Rijndael.getu32 key 16)) 0 5 (Rijndael.getu32 key 20)) 0 6 (Rijndael.getu32 key 24)) 0 7 (Rijndael.getu32 key 28)) 0 0, ?_, ?_⟩
+  · unfold Rijndael.keySetupEnc
+    rw [hlen]
+    rfl
+  · have a0 : Agree (Array.replicate Rijndael.rkWords 0) 0 (W 8 (keyW key)) := Agree_init _
+    have a1 : Agree (Rijndael.wr (Array.replicate Rijndael.rkWords 0) 0 0 (Rijndael.getu32 key 0)) (0 + 1) (W 8 (keyW key)) :=
+      a0.wr 0 0 _ _ rfl (by omega) (by omega) (W_lt 8 (keyW key) 0 (by omega)).symm
+    have a2 : Agree (Rijndael.wr (Rijndael.wr (Array.replicate Rijndael.rkWords 0) 0 0 (Rijndael.getu32 key 0)) 0 1 (Rijndael.getu32 key 4)) (1 + 1) (W 8 (keyW key)) :=
+      a1.wr 0 1 _ _ rfl (by omega) (by omega) (W_lt 8 (keyW key) 1 (by omega)).symm
+    have a3 : Agree (Rijndael.wr (Rijndael.wr (Rijndael.wr (Array.replicate Rijndael.rkWords 0) 0 0 (Rijndael.getu32 key 0)) 0 1 (Rijndael.getu32 key 4)) 0 2 (Rijndael.getu32 key 8)) (2 + 1) (W 8 (keyW key)) :=
+      a2.wr 0 2 _ _ rfl (by omega) (by omega) (W_lt 8 (keyW key) 2 (by omega)).symm
+    have a4 : Agree (Rijndael.wr (Rijndael.wr (Rijndael.wr (Rijndael.wr (Array.replicate Rijndael.rkWords 0) 0 0 (Rijndael.getu32 key 0)) 0 1 (Rijndael.getu32 key 4)) 0 2 (Rijndael.getu32 key 8)) 0 3 (Rijndael.getu32 key 12)) (3 + 1) (W 8 (keyW key)) :=
+      a3.wr 0 3 _ _ rfl (by omega) (by omega) (W_lt 8 (keyW key) 3 (by omega)).symm
+    have a5 : Agree (Rijndael.wr (Rijndael.wr (Rijndael.wr (Rijndael.wr (Rijndael.wr (Array.replicate Rijndael.rkWords 0) 0 0 (Rijndael.getu32 key 0)) 0 1 (Rijndael.getu32 key 4)) 0 2 (Rijndael.getu32 key 8)) 0 3 (Rijndael.getu32 key 12)) 0 4 (Rijndael.getu32 key 16)) (4 + 1) (W 8 (keyW key)) :=
+      a4.wr 0 4 _ _ rfl (by omega) (by omega) (W_lt 8 (keyW key) 4 (by omega)).symm
+    have a6 : Agree (Rijndael.wr (Rijndael.wr (Rijndael.wr (Rijndael.wr (Rijndael.wr (Rijndael.wr (Array.replicate Rijndael.rkWords 0) 0 0 (Rijndael.getu32 key 0)) 0 1 (Rijndael.getu32 key 4)) 0 2 (Rijndael.getu32 key 8)) 0 3 (Rijndael.getu32 key 12)) 0 4 (Rijndael.getu32 key 16)) 0 5 (Rijndael.getu32 key 20)) (5 + 1) (W 8 (keyW key)) :=
+      a5.wr 0 5 _ _ rfl (by omega) (by omega) (W_lt 8 (keyW key) 5 (by omega)).symm
+    have a7 : Agree (Rijndael.wr (Rijndael.wr (Rijndael.wr (Rijndael.wr (Rijndael.wr (Rijndael.wr (Rijndael.wr (Array.replicate Rijndael.rkWords 0) 0 0 (Rijndael.getu32 key 0)) 0 1 (Rijndael.getu32 key 4)) 0 2 (Rijndael.getu32 key 8)) 0 3 (Rijndael.getu32 key 12)) 0 4 (Rijndael.getu32 key 16)) 0 5 (Rijndael.getu32 key 20)) 0 6 (Rijndael.getu32 key 24)) (6 + 1) (W 8 (keyW key)) :=
+      a6.wr 0 6 _ _ rfl (by omega) (by omega) (W_lt 8 (keyW key) 6 (by omega)).symm
+    have a8 : Agree (Rijndael.wr (Rijndael.wr (Rijndael.wr (Rijndael.wr (Rijndael.wr (Rijndael.wr (Rijndael.wr (Rijndael.wr (Array.replicate Rijndael.rkWords 0) 0 0 (Rijndael.getu32 key 0)) 0 1 (Rijndael.getu32 key 4)) 0 2 (Rijndael.getu32 key 8)) 0 3 (Rijndael.getu32 key 12)) 0 4 (Rijndael.getu32 key 16)) 0 5 (Rijndael.getu32 key 20)) 0 6 (Rijndael.getu32 key 24)) 0 7 (Rijndael.getu32 key 28)) (7 + 1) (W 8 (keyW key)) :=
+      a7.wr 0 7 _ _ rfl (by omega) (by omega) (W_lt 8 (keyW key) 7 (by omega)).symm
+    exact loop256_ok (keyW key) 7 _ 0 rfl a8
+
+theorem RkOK_of_Agree (key : Bytes) (nk : Nat) (hnk : key.length / 4 = nk) (h4 : 4 ≤ key.length) (rk : Array UInt32)
+    (h : Agree rk (4 * (nk + 6 + 1)) (W nk (keyW key))) : RkOK rk (keyExpansion key) := by
+  obtain ⟨hl, hw⟩ := keyExpansion_W key h4
+  rw [hnk] at hl hw
+  intro r hr c hc
+  rw [hl] at hr
+  rw [hw r hr c hc]
+  exact h.2 _ (by omega)
+
+/-- K1: the encryption key schedule of the C text writes the FIPS 197 expanded key, for every key -/
+theorem keySetupEnc_ok (key : Bytes) (hk : key.length = 16 ∨ key.length = 24 ∨ key.length = 32) :
+    ∃ rk, Rijndael.keySetupEnc key = some (rk, key.length / 4 + 6) ∧ RkOK rk (keyExpansion key) ∧
+      (keyExpansion key).length = key.length / 4 + 6 + 1 := by
+  have hl := (keyExpansion_W key (by omega)).1
+  rcases hk with h | h | h
+  · obtain ⟨rk, e, ag⟩ := keySetupEnc_128 key h
+    have hnk : key.length / 4 = 4 := by omega
+    exact ⟨rk, by rw [e, hnk], RkOK_of_Agree key 4 hnk (by omega) rk ag, hl⟩
+  · obtain ⟨rk, e, ag⟩ := keySetupEnc_192 key h
+    have hnk : key.length / 4 = 6 := by omega
+    exact ⟨rk, by rw [e, hnk], RkOK_of_Agree key 6 hnk (by omega) rk ag, hl⟩
+  · obtain ⟨rk, e, ag⟩ := keySetupEnc_256 key h
+    have hnk : key.length / 4 = 8 := by omega
+    exact ⟨rk, by rw [e, hnk], RkOK_of_Agree key 8 hnk (by omega) rk ag, hl⟩
+
+#print axioms keySetupEnc_ok
+
 end Relic.Lemmas.Rijndael
+
